@@ -85,7 +85,9 @@ func scenario(c cfg) vrt.Scenario {
 				maxF = s.Frequency
 			}
 		}
-		vtime.Sleep(3*maxF + c.fnDur + time.Millisecond)
+		// (a select with both a buffered tick and the cancellation ready may serve up to
+		// the fairness bound of further ticks, each taking the function's duration)
+		vtime.Sleep(3*maxF + 6*c.fnDur + time.Millisecond)
 		vrt.Log(fmt.Sprintf("observed %d", vrt.Clock()))
 	}
 	post := func(o *vrt.Outcome) { oracle(c, o) }
@@ -179,10 +181,13 @@ func oracle(c cfg, o *vrt.Outcome) {
 			open++
 			ok := false
 			for gi, g := range gens {
-				if o.Cost == 0 && g.until >= 0 && t > g.until {
+				// strictness only where the runner is prompt: default schedule and a function that
+				// takes no time (while it executes the function the runner serves nothing else)
+				strict := o.Cost == 0 && c.fnDur == 0
+				if strict && g.until >= 0 && t > g.until {
 					continue // a prompt runner has processed the Restart by now
 				}
-				if fits(g, freq, t, o.Cost == 0) {
+				if fits(g, freq, t, strict) {
 					gens = gens[gi:]
 					ok = true
 					break
